@@ -483,6 +483,11 @@ def check_solves(c, ps, bs, t, nodes, M, out):
                     out['singular'] = out.get('singular', 0) + 1
                     continue
                 xs = pad(nb, lo, sol)
+                if not (np.all(np.isfinite(cfp)) and np.all(np.isfinite(php))) and not (np.isfinite(kappa) and kappa < 1e12):
+                    # an under-integrated system that is singular up to the rounding of its tables: the exact solve goes through,
+                    # a binary64 factorisation may legitimately break down - nothing is claimed there
+                    out['singular'] = out.get('singular', 0) + 1
+                    continue
                 if not (np.all(np.isfinite(cfp)) and np.all(np.isfinite(php))):
                     _fail(out, 'DiffEqSolver.solve:%s:nonfinite' % ('discrete' if kind == 'd' else 'function'),
                           'mode %d: the exact Galerkin system has a solution, the code returns non-finite coefficients / values' % m)
